@@ -23,6 +23,49 @@ def c20(chk, thorough):
         chk.level = 'proof'
 
 
+def load_program(chk, names=None):
+    from .program import Program
+    units = fe.load_units(names)
+    chk.units = sorted(units)
+    prog = Program(units)
+    chk.functions = len(list(prog.all_funcs()))
+    return prog
+
+
+def c06(chk, thorough):
+    from . import threads
+    chk.explanation = (
+        'Decides the race / seeding / join clauses of C06: (T1) no function reachable from any thread entry writes a '
+        'non-thread-local, non-atomic global outside a mutex region; (W1) the RNG state is touched only by the RNG API; '
+        '(T2) every RNG draw in a worker is dominated, inside that worker, by srand_ with a seed derived from the worker '
+        'argument; (T3) every dispatch region joins exactly the threads it created, after creating them, before freeing '
+        'or reading their arguments; (T5) the bootstrap seed is schedule-invariant (same coefficient for worker index and '
+        'batch counter, no dependence on the thread count). NOT decided: bit-identity of floating results, rounding-level '
+        'equality of averages across thread counts, OS scheduling.')
+    chk.assumptions = ['pthread_create/pthread_join are the only thread primitives (re-checked: any other pthread_* call is listed)',
+                       'the structured AST is the CFG (no goto/switch; re-checked per analysed function)']
+    prog = load_program(chk)
+    ents = threads.thread_entries(prog)
+    chk.extra['thread_entries'] = sorted(ents)
+    chk.extra['pthread_create_sites'] = len(prog.thread_creates())
+    if len(ents) < 15:
+        chk.broke('only %d thread entries found, floor 15' % len(ents))
+    if len(prog.thread_creates()) < 21:
+        chk.broke('only %d pthread_create sites found, floor 21' % len(prog.thread_creates()))
+    threads.t1(chk, prog, ents)
+    threads.who_may_touch(chk, prog)
+    threads.t2(chk, prog, ents)
+    nreg = threads.t3(chk, prog)
+    chk.extra['dispatch_regions'] = nreg
+    threads.t5(chk, prog)
+    chk.floor('T1.shared-state', 15)
+    chk.floor('T3.create-join', 13)
+    chk.floor('T2.seeded-before-use', 4)
+    chk.floor('T5.seed-schedule', 4)
+    chk.floor('W1.rng-state-owner', 1)
+
+
 CHECKS = {
+    'C06': c06,
     'C20': c20,
 }
